@@ -54,6 +54,8 @@ pub struct Srv {
     loop_thread: Option<JoinHandle<bool>>,
     /// everything the server sent, in arrival order
     pub received: Vec<Message>,
+    /// the transport has a writer thread (see `start_on`): a message handed over is on its way for a moment
+    rendezvous: bool,
 }
 
 pub fn uri(key: &str) -> String {
@@ -62,9 +64,30 @@ pub fn uri(key: &str) -> String {
 
 impl Srv {
     pub fn start(docs: &[(String, String)], config: Configuration, stepping: bool) -> Srv {
+        Srv::start_on(docs, config, stepping, false)
+    }
+
+    /// `rendezvous`: the transport has the shape of `Connection::stdio()` - the server hands every
+    /// outgoing message to a writer thread over a channel WITHOUT a buffer (`bounded(0)`), and the
+    /// writer is busy for a moment with every message it writes.  (`Connection::memory()` has
+    /// unbounded channels, on which a send can never find the other side busy.)
+    pub fn start_on(docs: &[(String, String)], config: Configuration, stepping: bool, rendezvous: bool) -> Srv {
         let (tx, rx) = mpsc::channel();
         hooks::install(tx, stepping);
-        let (connection, client) = Connection::memory();
+        let (connection, client) = if rendezvous {
+            let (to_writer, writer_in) = crossbeam_channel::bounded::<Message>(0);
+            let (written, client_in) = crossbeam_channel::unbounded::<Message>();
+            let (client_out, server_in) = crossbeam_channel::unbounded::<Message>();
+            let _ = std::thread::Builder::new().name("writer".into()).spawn(move || {
+                while let Ok(m) = writer_in.recv() {
+                    std::thread::sleep(Duration::from_millis(2)); // "writing"
+                    if written.send(m).is_err() { break; }
+                }
+            });
+            (Connection { sender: to_writer, receiver: server_in }, Connection { sender: client_out, receiver: client_in })
+        } else {
+            Connection::memory()
+        };
         let state: HashMap<String, String> = docs.iter().cloned().collect();
         let loop_thread = std::thread::Builder::new()
             .name("iwes-loop".into())
@@ -82,7 +105,7 @@ impl Srv {
                 .is_ok()
             })
             .ok();
-        Srv { client, events: rx, buffered: VecDeque::new(), loop_thread, received: vec![] }
+        Srv { client, events: rx, buffered: VecDeque::new(), loop_thread, received: vec![], rendezvous }
     }
 
     pub fn loop_alive(&self) -> bool {
@@ -178,6 +201,13 @@ impl Srv {
 
     /// Move everything the server has sent so far into `received`.
     pub fn drain(&mut self) {
+        if self.rendezvous {
+            // what the writer thread still holds arrives within its per-message delay: read until the
+            // line has been silent for a while
+            while let Ok(m) = self.client.receiver.recv_timeout(Duration::from_millis(25)) {
+                self.received.push(m);
+            }
+        }
         while let Ok(m) = self.client.receiver.try_recv() {
             self.received.push(m);
         }
